@@ -41,8 +41,8 @@ CLAIMS = {
             "TLC checks for every valid input changelog up to MaxLen per operator configuration that the output never retracts an absent row in any "
             "prefix and that its consolidation equals the operator applied to the consolidated input; the exported scripts and random long "
             "changelogs are run on the real nodes (filter, map, distinct, event-time buffer, simple/custom group by, order by = OrderSensitiveTransform with and "
-            "without LIMIT, limit, lookup join, unnest; stream and outer joins via StreamJoin.tla under every schedule) and every trace is validated by TLC against "
-            "the same monitor. One finding recorded (lookup join over a retracting joined side).",
+            "without LIMIT, limit, lookup join, unnest; eight small pipelines of these, e.g. group by with triggers feeding ORDER BY ... LIMIT; stream and outer joins via "
+            "StreamJoin.tla under every schedule) and every trace is validated by TLC against the same monitor. One finding recorded (lookup join over a retracting joined side).",
             "Valid input changelogs (also in event-time order). Predicates/projections are harness expressions (column = constant, column lists). "
             "Trusted: scripted source, value mapping, TLC.", "TLA+ spec + TLC bounded-exhaustive script export replayed on real nodes + TLC trace validation",
             "DESIGN.md 6/C15"),
